@@ -127,8 +127,116 @@ def run_scenario(name, strategy):
     return {'choices': [c for _, c in s.choices], 'raw_choices': list(s.choices), 'trace': tr}
 
 
+# ------------------------------------------------------------------ value write against limit writes
+
+def _p(via, v):
+    return (via, {'k': 'p', 'v': v})
+
+
+def _lim(via, k, *v):
+    return (via, {'k': k, 'v': v[0]} if k != 'limits' else {'k': k, 'a': v[0], 'b': v[1]})
+
+
+# kind of limit parameters, then the script of every thread: (via, job); via: 'drv' write_<p>(...) called
+# directly, 'cli' a change request through the real dispatcher (one request at a time there)
+LSCEN = {
+    'max_vs_value_direct': ('minmax', {'t1': [_lim('drv', 'max', 3)], 't2': [_p('drv', 5)]}),
+    'max_vs_value_client': ('minmax', {'t1': [_lim('drv', 'max', 3)], 't2': [_p('cli', 5)]}),
+    'client_max_vs_driver_value': ('minmax', {'t1': [_lim('cli', 'max', 3)], 't2': [_p('drv', 5)]}),
+    'min_vs_value': ('minmax', {'t1': [_lim('drv', 'min', 7)], 't2': [_p('cli', 5)]}),
+    'tuple_vs_value': ('limits', {'t1': [_lim('drv', 'limits', 0, 3)], 't2': [_p('drv', 5)]}),
+    'narrow_widen': ('minmax', {'t1': [_lim('drv', 'max', 3), _lim('drv', 'max', 9)], 't2': [_p('drv', 5), _p('cli', 2)]}),
+    'two_clients': ('minmax', {'t1': [_lim('cli', 'max', 3)], 't2': [_p('cli', 5)]}),
+}
+
+
+def run_limits(name, strategy):
+    boot()
+    import frappy.modulebase as mb
+    import frappy.protocol.dispatcher as dp
+    from frappy.datatypes import IntRange
+    from frappy.modules import Module
+    from frappy.params import Limit, Parameter
+    kind, scripts = LSCEN[name]
+    s = ds.Scheduler(strategy, max_steps=60000, trace_files=('frappy/modulebase.py',))
+    with ds.Patch(mb, dp):
+        class SecNode:
+            def __init__(self):
+                self.modules = {}
+                self.export = []
+                self.name = 'n'
+
+            def get_module(self, n):
+                return self.modules.get(n)
+
+        class Srv:
+            restart = shutdown = None
+
+        class Disp(dp.Dispatcher):
+            def announce_update(self, moduleobj, pobj):
+                if s.me() is not None:
+                    v = pobj.value
+                    s.log(ev='emit', p='p' if pobj.name == 'a' else pobj.name[2:],
+                          v=[int(x) for x in v] if isinstance(v, tuple) else int(v))
+                super().announce_update(moduleobj, pobj)
+
+        srv = Srv()
+        srv.secnode = SecNode()
+        disp = srv.dispatcher = Disp('d', LoggerStub(), {}, srv)
+        ns = {'a': Parameter('limited', IntRange(0, 10), default=0, readonly=False),
+              'write_a': lambda self, value: value, 'earlyInit': lambda self: None}
+        for k in (('a_min', 'a_max') if kind == 'minmax' else ('a_limits',)):
+            ns[k] = Limit()
+        m = type('Lim', (Module,), ns)('m', LoggerStub('m'), {'description': ''}, srv)
+        srv.secnode.modules['m'] = m
+        srv.secnode.export.append('m')
+
+        class Conn:
+            def send_reply(self, msg):
+                pass
+
+        def worker(script):
+            conn = Conn()
+            for via, j in script:
+                pname = 'a' if j['k'] == 'p' else 'a_' + j['k']
+                value = (j['a'], j['b']) if j['k'] == 'limits' else j['v']
+                s.log(ev='call', job=j)
+                try:
+                    if via == 'cli':
+                        disp.handle_request(conn, ('change', f'm:{m.parameters[pname].export}',
+                                                   list(value) if isinstance(value, tuple) else value))
+                    else:
+                        getattr(m, 'write_' + pname)(value)
+                    ok = True
+                except ds.SchedAbort:
+                    raise
+                except Exception:
+                    ok = False
+                s.log(ev='ret', ok=ok)
+
+        for th, script in sorted(scripts.items()):
+            s.spawn(th, worker, script)
+        s.run()
+        lims = m.a_limits if kind == 'limits' else (m.a_min, m.a_max)
+        final = {'lo': int(lims[0]), 'hi': int(lims[1]), 'val': int(m.a)}
+    tr = [{'ev': 'cfg', 'threads': sorted(scripts), 'lo': 0, 'hi': 10, 'kind': kind}]
+    for e in s.events:
+        if e['ev'] in ('call', 'emit', 'ret'):
+            tr.append({k: v for k, v in e.items() if k not in ('seq', 'vt')})
+    tr.append(dict(final, ev='end'))
+    if s.deadlock or s.livelock or any(t.exc is not None for t in s.threads.values()):
+        tr.append({'ev': 'broken', 'why': 'deadlock' if s.deadlock else 'livelock' if s.livelock else
+                   repr([t.exc for t in s.threads.values() if t.exc is not None])[:200]})
+    return {'choices': [c for _, c in s.choices], 'raw_choices': list(s.choices), 'trace': tr}
+
+
+def _runner(name):
+    return run_limits if name in LSCEN else run_scenario
+
+
 def _explore(args):
     name, mode, seed, nruns = args
+    run_scenario = _runner(name)        # noqa: the scenario family decides which world is built
     out = []
     try:
         if mode == 'dfs':
@@ -157,6 +265,10 @@ def design(chk, pool):
                        ('index', 'AnnouncedConsistent'))[:1 if quick else 3]:
         futs.append((mode, prop, pool.submit(run_tlc, 'LinkedConc', f'MC_LinkedConc_unlocked_{mode}.cfg', timeout=300,
                                              workers=2)))
+    futs.append(('limits locked', None, pool.submit(model_check, 'LinkedLimitsConc', 'MC_LinkedLimitsConc_locked.cfg',
+                                                    timeout=300, workers=1)))
+    futs.append(('limits', 'AcceptedWithinCurrent', pool.submit(run_tlc, 'LinkedLimitsConc',
+                                                                'MC_LinkedLimitsConc_unlocked.cfg', timeout=300, workers=1)))
     return futs
 
 
@@ -164,12 +276,16 @@ def executions(chk, pool):
     """run the scenarios under the scheduler (worker processes) and hand the traces to TLC (thread pool)"""
     quick = chk.tier == 'quick'
     if not quick:
-        for m in ('LinkedConc', 'LinkedSerial', 'Trace_LinkedSerial'):
+        for m in ('LinkedConc', 'LinkedSerial', 'Trace_LinkedSerial', 'LinkedLimitsConc', 'LinkedLimitsSerial',
+                  'Trace_LinkedLimitsSerial'):
             sany(m)
     jobs = []
     for name in SCEN:
         jobs.append((name, 'dfs', chk.seed, 50 if quick else 800))
         jobs.append((name, 'rnd', chk.seed + 5, 30 if quick else 400))
+    for name in LSCEN:
+        jobs.append((name, 'dfs', chk.seed, 40 if quick else 600))
+        jobs.append((name, 'rnd', chk.seed + 9, 20 if quick else 300))
     traces, origin, seen = [], [], set()
     for name, out, err in pool_map(_explore, jobs, chunksize=1):
         if err:
@@ -181,8 +297,12 @@ def executions(chk, pool):
                 seen.add(k)
                 traces.append(tr)
                 origin.append((name, choices))
-    return traces, origin, pool.submit(validate_traces, 'Trace_LinkedSerial', traces, 'Trace_LinkedSerial.cfg',
-                                       timeout=900)
+    fam = [[i for i, (n, _) in enumerate(origin) if (n in LSCEN) == lim] for lim in (False, True)]
+    return traces, origin, fam, [
+        pool.submit(validate_traces, 'Trace_LinkedSerial', [traces[i] for i in fam[0]], 'Trace_LinkedSerial.cfg',
+                    timeout=900),
+        pool.submit(validate_traces, 'Trace_LinkedLimitsSerial', [traces[i] for i in fam[1]],
+                    'Trace_LinkedLimitsSerial.cfg', timeout=900)]
 
 
 def finish(chk, dfuts, ex):
@@ -192,18 +312,22 @@ def finish(chk, dfuts, ex):
         if prop and (not r.violated or r.violated[1] != prop):
             raise MachineryError(f'callbacks outside the update lock ({mode}) were expected to violate {prop}: '
                                  f'{r.violated or r.error}')
-    traces, origin, vfut = ex
-    verdicts, st, trn = vfut.result()
-    chk.states += st
-    chk.transitions += trn
-    for i, v in verdicts.items():
+    traces, origin, fam, vfuts = ex
+    verdicts = {}
+    for sel, vfut in zip(fam, vfuts):
+        vd, st, trn = vfut.result()
+        chk.states += st
+        chk.transitions += trn
+        verdicts.update({sel[k]: v for k, v in vd.items()})
+    for i, v in sorted(verdicts.items()):
         name, choices = origin[i]
         chk.impl_traces += 1
         chk.case(('concurrent', name, tuple(choices)), len(set(choices)) > 1)
         if v is not None:
             l = v[0]
             ev = traces[i][l - 1] if 0 < l <= len(traces[i]) else {}
-            chk.violation({'module': 'LinkedSerial', 'scenario': name, 'event': ev.get('ev'), 'kind': ev.get('kind', '')},
+            chk.violation({'module': 'LinkedLimitsSerial' if name in LSCEN else 'LinkedSerial', 'scenario': name,
+                           'event': ev.get('ev'), 'kind': ev.get('kind', ev.get('p', ''))},
                           {'concurrent': name, 'choices': choices, 'failed_at': l, 'event': ev, 'trace': traces[i]})
     chk.notes['concurrent_update_schedules'] = len(traces)
     chk.sample({'concurrent_trace': traces[len(traces) // 2][:4]}, limit=16)
@@ -211,7 +335,7 @@ def finish(chk, dfuts, ex):
 
 def replay(chk, rep):
     d = rep['detail']
-    r = run_scenario(d['concurrent'], ds.GuidedStrategy(d['choices']))
+    r = _runner(d['concurrent'])(d['concurrent'], ds.GuidedStrategy(d['choices']))
     for e in r['trace']:
         print(json.dumps(e))
     return 0
